@@ -181,6 +181,21 @@ def guard(ctx: Any) -> List[Ob]:
             if self_attr(t, gm) in MEM:
                 stray.append((g, st))
     obs.append(ob(R, stray[0][0] if stray else f, stray[0][1] if stray else 'self.data / self.last_time / self.last_message', 'the duplicate memory is written only by the datagram processor (as a whole); no other method resets a part of it', not stray, f'{stray[0][0].name} stores `{norm(stray[0][1])[:60]}`' if stray else ''))
+    # the QU exemption may double a UNICAST answer only.  A copy that is let through because the previous message had a QU
+    # question is answered by the QU routine, which multicasts when the record was not multicast within a quarter of its TTL;
+    # that is repeated for the duplicate unless the first multicast has been noted where `recently multicast` is read (the
+    # cache) before the copy is processed.
+    from .c11 import QR, _bucket_eff
+
+    qu_f = prog.func(QR + '.add_qu_question_response')
+    qme = qu_f.params[0]
+    oc_q, _ = traces(ctx, qu_f, {f'{qme}._is_probe': False, '._has_mcast_within_one_quarter_ttl()': False}, _bucket_eff(qme), loop_bound=1, for_iter=lambda n, e: True)
+    qu_multicasts = any('MCAST_NOW' in t for t in oc_q)
+    has_exemption = any(isinstance(c, ast.Call) and call_name(c) == 'has_qu_question' for c in walk_local_ordered(f.node))
+    answer_path = ctx.cg.closure([prog.func('zeroconf._handlers.query_handler.QueryHandler.handle_assembled_query')], include_deferred=False)
+    notes_send = [g for g in answer_path if any(isinstance(c, ast.Call) and call_name(c) in ('async_add_records', '_async_add', 'set_created_ttl', 'reset_ttl') for c in walk_local_ordered(g.node))]
+    doubled = has_exemption and qu_multicasts and not notes_send
+    obs.append(ob(R, f, 'QU exemption of the duplicate guard -> add_qu_question_response -> multicast now', 'a duplicate that is processed because of a QU question cannot cause a second MULTICAST answer (only the unicast answer may be doubled)', not doubled, 'a duplicated QU query for a record that was not multicast within a quarter of its TTL is answered by multicast once per copy: the answer path records nothing that would make the record `recently multicast` for the second copy' if doubled else ''))
     obs.append(per_socket_protocol(ctx, R, 'each socket gets its own protocol object, so the duplicate memory is per socket'))
     # TC deferral ignores an identical packet: decided under C12.WIRING; re-checked minimally
     hq = prog.func('zeroconf._listener.AsyncListener.handle_query_or_defer')
